@@ -333,10 +333,6 @@ package commands
 //@   props C05
 //@   modifies fresh
 //@   ensures forall_int(i, result0[i], 0 <= i && i < len(result0) ==> result0[i] != nil)
-//@ func github.com/git-lfs/git-lfs/v3/git.RecentBranches
-//@   assumed
-//@   props C05
-//@   modifies fresh
 //@ func github.com/git-lfs/git-lfs/v3/git.GetCommitSummary
 //@   assumed
 //@   props C05
@@ -397,7 +393,7 @@ package commands
 // command only returns normally when no object was missing or corrupt (unless
 // lfs.allowincompletepush) and no other transfer error was collected.
 //@ func uploadForRefUpdates
-//@   props C03
+//@   props C03 C16
 //@   requires @inv ctx != nil && ctx.lockVerifier != nil && ctx.meter != nil
 //@   loop 2 iter scanned(update) && drained(q)
 //@   at call commands.uploadRangeOrAll:1 assert arg2__ == q
@@ -417,7 +413,7 @@ package commands
 //@   modifies fresh
 //@   ensures result != nil
 //@ func uploadRangeOrAll
-//@   props C03
+//@   props C03 C16
 //@   requires @inv g != nil && ctx != nil && update != nil
 //@   monitor scanned[update] := result == nil
 //@   ensures result == nil ==> ctx.scannerErr == nil
@@ -429,7 +425,7 @@ package commands
 //@   modifies fresh
 //@   ensures result == local_commitish(u)
 //@ func (*uploadContext).gitScannerCallback$1
-//@   props C03
+//@   props C03 C16
 //@   requires @inv c != nil && c.lockVerifier != nil && c.meter != nil
 //@   ensures err != nil ==> c.scannerErr != nil
 //@ func (*uploadContext).addScannerError
@@ -450,7 +446,7 @@ package commands
 //@   props C03
 //@   modifies fresh
 //@ func (*uploadContext).UploadPointers
-//@   props C03
+//@   props C03 C16
 //@   requires @inv c != nil && c.lockVerifier != nil && c.meter != nil && c.gitfilter != nil && q != nil
 //@   at call (*tq.TransferQueue).Add:1 assert arg3__ == iter2(p.Oid) && arg2__ == objpath(iter2(p.Oid)) && arg4__ == p.Size && arg6__ == nil
 //@   at call (*tq.TransferQueue).Add:1 assert arg5__ ==> !iter2(c.allowMissing)
